@@ -1083,14 +1083,15 @@ static int janet_channel_push_with_lock(JanetChannel *channel, Janet x, int mode
     int is_empty;
     /* A caller such as ev/select may hold the locks of other channels as well, so a failure comes back as
      * status 2 with the error value in *err (like janet_channel_pop_with_lock) instead of being raised here. */
-    if (janet_chan_pack(channel, &x)) {
-        janet_chan_unlock(channel);
-        *err = janet_wrap_string(janet_formatc("failed to pack value for channel: %v", x));
-        return 2;
-    }
+    /* Look at `closed` before the value is packed: a packed message owns memory and references */
     if (channel->closed) {
         janet_chan_unlock(channel);
         *err = janet_cstringv("cannot write to closed channel");
+        return 2;
+    }
+    if (janet_chan_pack(channel, &x)) {
+        janet_chan_unlock(channel);
+        *err = janet_wrap_string(janet_formatc("failed to pack value for channel: %v", x));
         return 2;
     }
     int is_threaded = janet_chan_is_threaded(channel);
